@@ -557,6 +557,13 @@ TWIN_STMTS = [
 ]
 
 
+# names of labels the parser computes for the statements above (and two it does not): a hint adding one of them puts
+# a second entry of that name beside the computed one
+TWIN_ADDITIONS = ["assignment", "node:Assign", "node:Name", "literal:Num", "node:Call", "node:List", "external_free_call:print",
+                  "node:Expr", "binary_operator:Add", "node:FunctionDef", "node:For", "node:If", "import:os", "foo",
+                  "flow/conditional", "var/assignment/explicit", "single_assignment:y"]
+
+
 def gen_twins(rng, strategy):
     """2-4 files holding the same program (same syntax tree, same hints) with different physical layouts."""
     k = rng.randint(1, 4)
@@ -564,6 +571,7 @@ def gen_twins(rng, strategy):
     nums = [rng.randint(0, 9) for _ in range(k)]
     hint = rng.choice([None, None, (rng.randrange(k), rng.choice(["foo", "-node:Name", "flow/conditional"]))])
     n = rng.randint(2, 4)
+    own_hints = rng.random() < 0.5
     texts = []
     for t in range(n):
         parts = []
@@ -580,7 +588,21 @@ def gen_twins(rng, strategy):
                 if rng.random() < 0.4:
                     parts.append(rng.choice(["", "# a comment", "\n", "# c\n"]))
             parts.append(text)
-        texts.append("\n".join(parts) + rng.choice(["\n", "\n", ""]))
+        whole = "\n".join(parts)
+        if own_hints and (t == 0 or rng.random() < 0.4):
+            # hints of this twin ONLY (the others keep theirs or have none): additions named like labels the parser
+            # computes for these statements, on any line of this layout — the last line of the longest layout is a
+            # line the shorter twins do not have (seed C02-k: the matches of the regex features memoised per flat
+            # AST, and the memoised span list extended in place by the additions of the first twin)
+            lines = whole.split("\n")
+            for _ in range(rng.randint(1, 2)):
+                cands = [q for q, l in enumerate(lines) if l.strip() and not l.rstrip().endswith("\\") and "paroxython" not in l]
+                if not cands:
+                    break
+                q = cands[-1] if rng.random() < 0.6 else rng.choice(cands)
+                lines[q] += " # paroxython: " + rng.choice(TWIN_ADDITIONS)
+            whole = "\n".join(lines)
+        texts.append(whole + rng.choice(["\n", "\n", ""]))
     if len(set(texts)) < 2:
         return None
     names = [f"twin_{chr(97 + i)}.py" for i in range(n)]
